@@ -260,3 +260,48 @@ def duration_forms(n, u, words=True, digits=True):
 INERT_CANDIDATES = ["xyzzy", "plugh", "qux", "zork", "blorb", "wibble", "grue", "frotz", "kwyjibo", "lorem",
                     "ipsum", "gizmo", "quark", "zebra", "pizza", "kiwi", "yoga", "jazz", "lunch", "call",
                     "buy", "milk", "review", "budget", "gym", "pickup", "kids", "flight", "zahnarzt", "kino"]
+
+
+# ---- token soups: random sequences of lexemes of every category (renders Derive.tla's alphabet) ------
+def soup_lexemes():
+    """A flat list of surface lexemes covering every pattern of the rule base."""
+    out = []
+    for key in ("today", "now", "tomorrow", "after_tomorrow", "yesterday", "before_yesterday", "eom", "eoy", "this", "next",
+                "next_week", "absorb", "from", "of", "before", "not_before", "after", "not_after", "joiner", "quarter_before",
+                "quarter_after", "half_before", "half_after", "midnight", "for", "half"):
+        out += LEX[key][:4]
+    for d in LEX["dow"].values():
+        out += d[:2]
+    for d in LEX["month"].values():
+        out += d[:2]
+    for d in LEX["named_hour"].values():
+        out += d[:1]
+    for d in LEX["pod_modifier"].values():
+        out += d[:2]
+    for d in LEX["pod"].values():
+        out += d[:2]
+    for n in ("1", "2", "12", "21", "31"):
+        out += LEX["number_word"][n][:2]
+    for u in LEX["unit"].values():
+        out += u[:2]
+    out += ["1.", "5.", "28.", "29.", "30.", "31.", "1st", "2nd", "3rd", "29th", "31st", "2019", "2020", "19", "99", "31.04.", "29.2.",
+            "30.1.", "31.4.2020", "29.2.2019", "29.02.20", "1.1.2018", "2/30", "7-4", "8", "8:30pm", "12am", "12:00 pm", "0:00", "23:59",
+            "9", "5", "23:30", "3:35", "13:00am", "2030", "2018", "0800 uhr", "1215", "17 uhr", "3h", "8 o'clock", "0 days", "3 days",
+            "2 weeks", "1 month", "48 hours", "90 minutes", "1 night", "99999999999 days", "100000 months", "-", "/", "#tag", "#a-b_c",
+            "xyzzy", ",", ";", "(", ")", "–", " ", "8 8", "31.12.9999", "1.1.1", "00", "0", "000", "24:00", "24", "60", "31/12",
+            "12/31", "feb 30", "april 31"]
+    seen, res = set(), []
+    for x in out:
+        if x not in seen:
+            seen.add(x)
+            res.append(x)
+    return res
+
+
+def soups(rnd, n, kmin=1, kmax=5, lexemes=None):
+    lx = lexemes or soup_lexemes()
+    out = []
+    for _ in range(n):
+        k = rnd.randint(kmin, kmax)
+        out.append(" ".join(rnd.choice(lx) for _ in range(k)))
+    return out
